@@ -5,10 +5,10 @@ CFG = {'streams': [{'name': 'C03',
               'thorough_seeds': 2,
               'what_fails': 'probe stanzas recording every capture: model vs implementation in strict (codes 1-7) or lazy (100+code) mode; 90 an '
                             "oracle assumption A1-A3 about tree-sitter's merged query fails; 91 the public match visitor disagrees with the raw "
-                            'matches or between modes'}],
+                            'matches or between modes; 92 (large direct-only cases) strict or lazy execution does not run one block per raw stanza match'}],
  'rule': '2-5 stanzas drawn from a pool of 14 query shapes (fields, wildcards, alternation, anchors, #eq? predicate, ?, *, + captures, names shared '
          'between stanzas with different quantifiers, _-prefixed names), each recording all its captures as attributes; x generated sources incl. '
-         '30% with injected syntax errors; both modes; non-trivial = at least 2 stanzas sharing a capture name',
+         '30% with injected syntax errors; both modes; non-trivial = at least 2 stanzas sharing a capture name; plus, per 700 cases (at least one), a LARGE direct-only case: three stanzas pairing non-adjacent siblings over three nested sibling lists of 360-440 nodes, so that more than a thousand matches of the merged query are in progress at once (model not evaluated on these: raw stanza-query matches vs lazy visitor vs blocks run in both modes)',
  'explanation': 'Theorems: capture value shape by quantifier; strict (stanza index, stanza match) and lazy (file index, merged match) bind the same '
                 "value when the name denotes the same nodes; a capture's value depends only on its own match; each match runs its block once, in "
                 'file order. Harness validates A1-A3 and compares try_visit_matches(lazy=false/true) with the raw matches.',
